@@ -1,7 +1,7 @@
 (* C04 — property theorems only. Metamethod selection in the reference evaluator: for all states
    (metatable graphs), operands, fuel, and all behaviours of the handler (an arbitrary call). *)
 From GL Require Import Common.Bytes Lua.Syntax Lua.Num Lua.Values Lua.Names Lua.Eval
-  Lua.MonadFacts Lua.EvalStepFacts Lua.MetaFacts.
+  Lua.MonadFacts Lua.EvalStepFacts Lua.MetaFacts Lua.MetaChainFacts.
 
 (* indexing: raw table first *)
 Theorem index_raw_first : forall n fr r k d s,
@@ -209,3 +209,85 @@ Theorem setmetatable_missing_argument : forall n fr r s,
   builtin_call (S n) fr BSetMt [VTab r] s = Err (VFault 6 (frames_line fr)) s.
 Proof. exact setmetatable_missing_lemma. Qed.
 Print Assumptions setmetatable_missing_argument.
+
+(* ---------- whole chains and the documented depth (wave 5; Lua/MetaChainFacts.v) ----------
+   [chain ev s k v vs]: v, then the objects vs, each passing the key on to the next (a table where
+   the key is absent, or a non-table value such as a userdata, whose handler for ev is the next
+   object). The chain has S (length vs) objects. The evaluator starts every gettable / settable
+   event with depth 100 (lvm.c MAXTAGLOOP, gopher-lua MaxTableGetLoop). *)
+
+(* at most [depth] objects: the LAST object is examined like a directly indexed one, with a
+   positive remaining depth, i.e. its raw slot and its own handler are honoured (index_raw_first,
+   index_absent_follows_chain, index_nontable apply to the right-hand side) *)
+Theorem index_chain_walked_to_last : forall fr k s vs v n depth,
+  chain s_mm_index s k v vs -> (length vs < depth)%nat ->
+  index (length vs + S n) fr v k depth s = index (S n) fr (last vs v) k (S (depth - length vs - 1)) s.
+Proof. exact index_chain_within_depth_lemma. Qed.
+Print Assumptions index_chain_walked_to_last.
+
+Theorem index_chain_last_hit : forall fr k s vs v n depth r,
+  chain s_mm_index s k v vs -> (length vs < depth)%nat -> last vs v = VTab r ->
+  is_nil (rawget_of s r k) = false ->
+  index (length vs + S n) fr v k depth s = Ret (rawget_of s r k) s.
+Proof. exact index_chain_last_hit_lemma. Qed.
+Print Assumptions index_chain_last_hit.
+
+Theorem index_chain_last_absent_is_nil : forall fr k s vs v n depth r,
+  chain s_mm_index s k v vs -> (length vs < depth)%nat -> last vs v = VTab r ->
+  is_nil (rawget_of s r k) = true -> metafield s (VTab r) s_mm_index = VNil ->
+  index (length vs + S n) fr v k depth s = Ret VNil s.
+Proof. exact index_chain_last_absent_lemma. Qed.
+Print Assumptions index_chain_last_absent_is_nil.
+
+Theorem index_chain_last_handler_called : forall fr k s vs v n depth,
+  chain s_mm_index s k v vs -> (length vs < depth)%nat ->
+  match last vs v with VTab r => is_nil (rawget_of s r k) = true | _ => True end ->
+  is_called (metafield s (last vs v) s_mm_index) = true ->
+  index (length vs + S n) fr v k depth s =
+  first_of (call n fr (metafield s (last vs v) s_mm_index) [last vs v; k] s).
+Proof. exact index_chain_last_handler_lemma. Qed.
+Print Assumptions index_chain_last_handler_called.
+
+(* one object more than the depth: an error, whatever the last object holds *)
+Theorem index_chain_beyond_depth_is_error : forall fr k s vs v n depth,
+  chain s_mm_index s k v vs -> length vs = depth ->
+  index (length vs + S n) fr v k depth s = Err (VFault 1 (frames_line fr)) s.
+Proof. exact index_chain_beyond_depth_lemma. Qed.
+Print Assumptions index_chain_beyond_depth_is_error.
+
+Theorem newindex_chain_walked_to_last : forall fr k x s vs v n depth,
+  chain s_mm_newindex s k v vs -> (length vs < depth)%nat ->
+  setindex (length vs + S n) fr v k x depth s =
+  setindex (S n) fr (last vs v) k x (S (depth - length vs - 1)) s.
+Proof. exact setindex_chain_within_depth_lemma. Qed.
+Print Assumptions newindex_chain_walked_to_last.
+
+(* a key held by an inner table of a longer chain is raw-assigned there (the walk ends) *)
+Theorem newindex_chain_key_held_is_raw_store : forall fr k x s vs v n depth r,
+  chain s_mm_newindex s k v vs -> (length vs < depth)%nat -> last vs v = VTab r ->
+  is_nil (rawget_of s r k) = false -> valid_key k = true ->
+  setindex (length vs + S n) fr v k x depth s = Ret tt (rawset_state s r k x).
+Proof. exact setindex_chain_last_present_lemma. Qed.
+Print Assumptions newindex_chain_key_held_is_raw_store.
+
+Theorem newindex_chain_last_plain_stores : forall fr k x s vs v n depth r,
+  chain s_mm_newindex s k v vs -> (length vs < depth)%nat -> last vs v = VTab r ->
+  is_nil (rawget_of s r k) = true -> metafield s (VTab r) s_mm_newindex = VNil -> valid_key k = true ->
+  setindex (length vs + S n) fr v k x depth s = Ret tt (rawset_state s r k x).
+Proof. exact setindex_chain_last_plain_lemma. Qed.
+Print Assumptions newindex_chain_last_plain_stores.
+
+Theorem newindex_chain_last_handler_called : forall fr k x s vs v n depth,
+  chain s_mm_newindex s k v vs -> (length vs < depth)%nat ->
+  match last vs v with VTab r => is_nil (rawget_of s r k) = true | _ => True end ->
+  is_called (metafield s (last vs v) s_mm_newindex) = true ->
+  setindex (length vs + S n) fr v k x depth s =
+  unit_of (call n fr (metafield s (last vs v) s_mm_newindex) [last vs v; k; x] s).
+Proof. exact setindex_chain_last_handler_lemma. Qed.
+Print Assumptions newindex_chain_last_handler_called.
+
+Theorem newindex_chain_beyond_depth_is_error : forall fr k x s vs v n depth,
+  chain s_mm_newindex s k v vs -> length vs = depth ->
+  setindex (length vs + S n) fr v k x depth s = Err (VFault 1 (frames_line fr)) s.
+Proof. exact setindex_chain_beyond_depth_lemma. Qed.
+Print Assumptions newindex_chain_beyond_depth_is_error.
